@@ -226,13 +226,19 @@ Fixpoint list_eqb (a b : list (N * N)) : bool :=
   | _, _ => false
   end.
 
+(* the SAME queues, in whatever order the driver created them: the property asks that the driver configures its queues before
+   DRIVER_OK, not in which order (a rewrite that creates the receive queue before the transmit queue is harmless; an earlier
+   version of this monitor compared the two lists in order and raised a false alarm on exactly that rewrite) *)
+Definition same_queues (a b : list (N * N)) : bool :=
+  (lenN a =? lenN b) && forallb (fun x => existsb (pair_eqb x) b) a && forallb (fun x => existsb (pair_eqb x) a) b.
+
 Definition mon_flags (ins : list N) : list N :=
   match ins with
   | d :: offered :: p1 :: ok :: tr =>
       match dec_driver d, dec_tr (length tr) tr with
       | Some d, Some t =>
           [b2n (flags_ok_b (negotiated d offered) t
-                && implb (n2b ok) (list_eqb (queues_of t) (expected_queues d p1)))]
+                && implb (n2b ok) (same_queues (queues_of t) (expected_queues d p1)))]
       | _, _ => ibad
       end
   | _ => ibad
